@@ -2,6 +2,7 @@
 import ast
 import re
 
+from .. import modeling_rules as mr
 from .. import pyfront as pf
 from ..core import Check, AnalysisError
 from ..world import World
@@ -320,6 +321,12 @@ def build(tier, repo):
                 r8.ok(key, m.where(fn, fn), "only extended in place")
     chk.note_analysed("varlist_accumulators", nvl)
     r8.require(1)
+    r9 = chk.rule("C13-R9", "variables() accumulators filter on the list being extended; a refused edit precedes every bookkeeping write; no list is mutated while iterated",
+                  "the bookkeeping lists exactly the variables of the problem; refused or failed edits never corrupt it")
+    chk.note_analysed("accumulator_filters", mr.accumulator_filter_rule(r9, w))
+    chk.note_analysed("refusals_in_edit_operations", mr.validate_then_mutate_rule(r9, w))
+    chk.note_analysed("loops_with_list_mutation", mr.iterate_and_mutate_rule(r9, w))
+    r9.require(4)
     return chk
 
 
